@@ -267,17 +267,30 @@ fn main() {
 
 /// Deterministic sub-campaign of clause (c): cancellation queued behind a backlog of timer messages.
 fn backlog_campaign(ctx: &vcore::Ctx, known: &Known, report: &mut Report, unconfirmed: &mut Vec<Value>) {
+    use backlog::{BacklogCase, BacklogObs};
     use proptest::prelude::*;
     let n: usize = std::env::var("RT_BACKLOG_CASES").ok().and_then(|s| s.parse().ok()).unwrap_or(ctx.pick(40, 400));
     let strategy = (1u32..=200, prop_oneof![1u32..=20, 1u32..=2000], 100u32..=5000)
-        .prop_map(|(fillers, polls_each, victim_us)| backlog::BacklogCase { fillers, polls_each, victim_us });
+        .prop_map(|(fillers, polls_each, victim_us)| BacklogCase { fillers, polls_each, victim_us });
     let mut runner = vcore::pt::runner(n as u32, ctx.rng_seed("backlog"), 0);
-    let fails3 = |c: &backlog::BacklogCase| (0..3).all(|_| {
-        let o = backlog::run(c, wall_bound());
-        o.judged && o.wakes_after_drop > 0
-    });
-    let mut failing = 0u64;
-    let mut reported = false;
+    let failed = |o: &BacklogObs| o.judged && o.wakes_after_drop > 0;
+    // how much longer than the victim's duration the timer thread was busy
+    let ratio = |c: &BacklogCase, o: &BacklogObs| {
+        o.backlog_drained_after.map(|d| d.as_secs_f64() * 1e6 / c.victim_us as f64).unwrap_or(0.0)
+    };
+    // fails k times in a row, each time with the backlog at least twice as long as the sleep
+    let fails_robustly = |c: &BacklogCase, k: usize| -> Option<BacklogObs> {
+        let mut last = None;
+        for _ in 0..k {
+            let o = backlog::run(c, wall_bound());
+            if !failed(&o) || ratio(c, &o) < 2.0 {
+                return None;
+            }
+            last = Some(o);
+        }
+        last
+    };
+    let mut failing: Vec<(BacklogCase, BacklogObs)> = vec![];
     for _ in 0..n {
         let c = vcore::pt::draw(&mut runner, &strategy);
         let o = backlog::run(&c, wall_bound());
@@ -286,70 +299,68 @@ fn backlog_campaign(ctx: &vcore::Ctx, known: &Known, report: &mut Report, unconf
         if o.judged {
             classes.push("backlog_drop_before_deadline".into());
         }
-        if o.backlog_drained_after.map(|d| d > Duration::from_micros(c.victim_us as u64)).unwrap_or(false) {
+        if ratio(&c, &o) > 1.0 {
             classes.push("backlog_longer_than_sleep".into());
         }
         if o.backlog_drained_after.is_none() {
             report.inconclusive.push(format!("backlog scenario {c:?}: the timer thread did not reach the sentinel within {:?}", wall_bound()));
         }
         report.stats.case(vcore::hash_json(&cj), o.judged && c.fillers as u64 * c.polls_each as u64 >= 2, &classes);
-        if !(o.judged && o.wakes_after_drop > 0) {
-            continue;
+        if failed(&o) {
+            failing.push((c, o));
         }
-        failing += 1;
-        if reported {
-            continue;
-        }
-        if !fails3(&c) {
-            unconfirmed.push(json!({"signature": backlog::SIG, "what": backlog::what(&c, &o), "reproduced": "<3/3", "liveness": false, "case": cj}));
-            continue;
-        }
-        reported = true;
-        if known.matches(backlog::SIG) {
-            continue;
-        }
-        // shrink: fewer messages ahead of the cancellation, as long as it still fails 3/3
-        let from = cj.to_string().len() as u64;
-        let mut best = c.clone();
-        loop {
-            let mut cands = vec![];
-            if best.fillers > 1 {
-                cands.push(backlog::BacklogCase { fillers: best.fillers / 2, ..best.clone() });
-            }
-            if best.polls_each > 1 {
-                cands.push(backlog::BacklogCase { polls_each: best.polls_each / 2, ..best.clone() });
-            }
-            if best.polls_each > 1 && best.victim_us >= 200 {
-                cands.push(backlog::BacklogCase { polls_each: best.polls_each / 2, victim_us: best.victim_us / 2, ..best.clone() });
-            }
-            if best.fillers > 1 && best.victim_us >= 200 {
-                cands.push(backlog::BacklogCase { fillers: best.fillers / 2, victim_us: best.victim_us / 2, ..best.clone() });
-            }
-            if best.victim_us % 100 != 0 {
-                cands.push(backlog::BacklogCase { victim_us: best.victim_us / 100 * 100, ..best.clone() });
-            }
-            match cands.into_iter().find(|x| fails3(x) && fails3(x)) {
-                Some(x) => best = x,
-                None => break,
-            }
-        }
-        let mut o = backlog::run(&best, wall_bound());
-        for _ in 0..10 {
-            if o.judged && o.wakes_after_drop > 0 {
-                break;
-            }
-            o = backlog::run(&best, wall_bound());
-        }
-        let cj2 = serde_json::to_value(&best).unwrap();
-        report.failures.push(Failure {
-            signature: backlog::SIG.into(),
-            what: backlog::what(&best, &o),
-            shrunk_to: Some(cj2.to_string().len() as u64),
-            case: cj2,
-            shrunk_from: Some(from),
-        });
     }
-    if reported && known.matches(backlog::SIG) {
-        *report.stats.excluded_known.entry(backlog::SIG.into()).or_insert(0) += failing;
+    if failing.is_empty() {
+        return;
     }
+    let n_failing = failing.len() as u64;
+    failing.sort_by(|a, b| ratio(&b.0, &b.1).partial_cmp(&ratio(&a.0, &a.1)).unwrap());
+    // confirm-by-replay: the clearest cases first
+    let mut confirmed = None;
+    for (c, o) in failing.iter().take(5) {
+        if (0..3).all(|_| failed(&backlog::run(c, wall_bound()))) {
+            confirmed = Some((c.clone(), backlog::what(c, o)));
+            break;
+        }
+        unconfirmed.push(json!({"signature": backlog::SIG, "what": backlog::what(c, o), "reproduced": "<3/3", "liveness": false}));
+    }
+    let Some((c, what)) = confirmed else { return };
+    if known.matches(backlog::SIG) {
+        *report.stats.excluded_known.entry(backlog::SIG.into()).or_insert(0) += n_failing;
+        return;
+    }
+    // shrink: fewer messages ahead of the cancellation / shorter sleep, as long as it still fails robustly
+    let from = serde_json::to_value(&c).unwrap().to_string().len() as u64;
+    let mut best = (c, what);
+    loop {
+        let b = &best.0;
+        let mut cands = vec![];
+        if b.fillers > 1 {
+            cands.push(BacklogCase { fillers: b.fillers / 2, ..b.clone() });
+        }
+        if b.polls_each > 1 {
+            cands.push(BacklogCase { polls_each: b.polls_each / 2, ..b.clone() });
+        }
+        if b.polls_each > 1 && b.victim_us >= 200 {
+            cands.push(BacklogCase { polls_each: b.polls_each / 2, victim_us: b.victim_us / 2, ..b.clone() });
+        }
+        if b.fillers > 1 && b.victim_us >= 200 {
+            cands.push(BacklogCase { fillers: b.fillers / 2, victim_us: b.victim_us / 2, ..b.clone() });
+        }
+        if b.victim_us % 100 != 0 {
+            cands.push(BacklogCase { victim_us: b.victim_us / 100 * 100, ..b.clone() });
+        }
+        match cands.into_iter().find_map(|x| fails_robustly(&x, 5).map(|o| (x.clone(), backlog::what(&x, &o)))) {
+            Some(x) => best = x,
+            None => break,
+        }
+    }
+    let cj2 = serde_json::to_value(&best.0).unwrap();
+    report.failures.push(Failure {
+        signature: backlog::SIG.into(),
+        what: best.1,
+        shrunk_to: Some(cj2.to_string().len() as u64),
+        case: cj2,
+        shrunk_from: Some(from),
+    });
 }
